@@ -663,6 +663,22 @@ func checkC09(c *Check) {
 	// ---- K4 translating layers
 	c.Rule("K4", "a layer that hands a transformed address to the inner AddRcpt translates result keys back through a table written at the forwarding site; already-translated keys are not translated again", 3)
 	c09Translate(c, pc, sites)
+
+	// ---- K7: the table the translation reads. The pipeline's collector maps a target's key back through
+	// msgMeta.OriginalRcpts; a rewritten address that reaches a target without an entry there is reported under the
+	// rewritten spelling, which the client never sent. Where and under which key the entry is written is C18's rule
+	// R8 (the failure report reads the same table), evaluated here.
+	c.Rule("K7", "pipeline AddRcpt: whenever the address handed to a target differs from what the client sent it is recorded in OriginalRcpts under the very variable passed to the target, with the client's spelling as the value (C18.R8)", 2)
+	sub := newCheck("C18", c.P, c.Tier)
+	c18Alias(sub)
+	for _, o := range sub.obs {
+		if o.Rule == "R8" {
+			c.Hold("K7", o.Key, o.posRaw, o.OK, o.Msg)
+		}
+	}
+	for f := range sub.funcs {
+		c.SawFunc(f)
+	}
 }
 
 func fieldOwnerName(fv *types.Var) string {
